@@ -290,7 +290,7 @@ fn exec(c: &Case) -> Vec<String> {
             }
         });
     });
-    match rx.recv_timeout(Duration::from_secs(5)) {
+    match rx.recv_timeout(Duration::from_secs(5 * nvh::load_factor() as u64)) {
         Ok(v) => v,
         Err(_) => vec!["blocked".into()],
     }
